@@ -70,6 +70,10 @@ func main() {
 			timedOps(o, seed, n, corpus+"/fens.txt")
 		case "conc":
 			concOps(o, seed, n)
+		case "edges":
+			edgeOps(o, seed, n)
+		case "seebat":
+			seeBatteryOps(o, seed, n)
 		case "proc":
 			procOps(o, seed, n, corpus+"/fens.txt")
 		case "deep":
